@@ -182,6 +182,8 @@ class GateSpec(H.Spec):
             if got != ('raise', 'ValueError'):
                 st.fail('pre-3.0-grid-accepts-3.0-only-value', dict(sig, observed=str(got[1]) if got[0] == 'raise' else 'accepted'), case,
                         {'op': list(op), 'declared': v, 'reachable_3.0_data': after})
+                # the grid now holds mislabelled data: the writers must still refuse it
+                self.writers(g, v, after, False, st, sig, case)
                 return False
             if after != before and not (p == 'extend'):
                 st.fail('refused-store-left-3.0-only-value-in-grid', sig, case, {'op': list(op), 'reachable_3.0_data': after})
@@ -214,15 +216,24 @@ class GateSpec(H.Spec):
             if model['refused_ctor'] and not (k in V3KINDS and pre3(v)):
                 st.fail('store-refused-although-version-allows-it', dict(sig, observed='ValueError'), case, {'declared': v})
                 return False
+        broken = False
         if places and pre3(v):
             st.fail('3.0-only-value-reachable-in-pre-3.0-grid', sig, case, {'declared': v, 'places': places})
-            return False
-        if places and not rep3:
+            broken = True
+        elif places and not rep3:
             st.fail('grid-reports-pre-3.0-version-while-holding-3.0-only-value', sig, case, {'declared': v, 'reported': rep, 'places': places})
-            return False
+            broken = True
         if v != 'none' and refversion.cmp(rep, v) != 0:
             st.fail('explicit-version-changed', sig, case, {'declared': v, 'reported': rep})
             return False
+        # the writers are the last line of defence: they are evaluated on EVERY reached state, including states in
+        # which the grid already holds mislabelled data (e.g. through the known column-assignment bypass)
+        if self.writers(g, v, places, rep3, st, sig, case) is False or broken:
+            return False
+        return True
+
+    def writers(self, g, v, places, rep3, st, sig, case):
+        hs = self.hs
         # both writers on every reached state
         for mode, name in ((hs.MODE_ZINC, 'zinc'), (hs.MODE_JSON, 'json')):
             got = H.outcome(hs.dump, g, mode=mode)
